@@ -295,6 +295,9 @@ impl Grid {
         prev_attrs: Option<crate::attrs::Attrs>,
     ) {
         let prev_attrs = prev_attrs.unwrap_or_default();
+        // rows of the scrollback can be narrower than the screen after a
+        // resize; the view has nothing but blank space there
+        let default_cell = crate::Cell::new();
         // writing a character to the last column of a row doesn't wrap the
         // cursor immediately - it waits until the next character is actually
         // drawn. it is only possible for the cursor to have this kind of
@@ -306,10 +309,10 @@ impl Grid {
                 col: self.size.cols - 1,
             };
             if self
-                .drawing_cell(pos)
+                .visible_cell(pos)
                 // we assume self.pos.row is always valid, and self.size.cols
                 // - 1 is always a valid column
-                .unwrap()
+                .unwrap_or(&default_cell)
                 .is_wide_continuation()
             {
                 pos.col = self.size.cols - 2;
@@ -321,7 +324,7 @@ impl Grid {
                 // self.size.cols - 1 is a wide continuation character, which
                 // means that the first half of the wide character must be
                 // before it
-                self.drawing_cell(pos).unwrap();
+                self.visible_cell(pos).unwrap_or(&default_cell);
             if cell.has_contents() {
                 if let Some(prev_pos) = prev_pos {
                     crate::term::MoveFromTo::new(prev_pos, pos)
@@ -346,17 +349,17 @@ impl Grid {
                     pos.row = i;
                     pos.col = self.size.cols - 1;
                     if self
-                        .drawing_cell(pos)
+                        .visible_cell(pos)
                         // i is always less than self.pos.row, which we assume
                         // to be always valid, so it must also be valid.
                         // self.size.cols - 1 is always a valid col.
-                        .unwrap()
+                        .unwrap_or(&default_cell)
                         .is_wide_continuation()
                     {
                         pos.col = self.size.cols - 2;
                     }
                     let cell = self
-                        .drawing_cell(pos)
+                        .visible_cell(pos)
                         // i is always less than self.pos.row, which we assume
                         // to be always valid, so it must also be valid.
                         // self.size.cols - 2 is valid because self.size.cols
@@ -365,7 +368,7 @@ impl Grid {
                         // - 1 is a wide continuation character, meaning that
                         // the first half of the wide character must be before
                         // it
-                        .unwrap();
+                        .unwrap_or(&default_cell);
                     if cell.has_contents() {
                         if let Some(prev_pos) = prev_pos {
                             if prev_pos.row != i
@@ -425,10 +428,10 @@ impl Grid {
                     // we know that the cell has no contents, but it still may
                     // have drawing attributes (background color, etc)
                     let end_cell = self
-                        .drawing_cell(pos)
+                        .visible_cell(pos)
                         // we assume self.pos.row is always valid, and
                         // self.size.cols - 1 is always a valid column
-                        .unwrap();
+                        .unwrap_or(&default_cell);
                     end_cell
                         .attrs()
                         .write_escape_code_diff(contents, &prev_attrs);
